@@ -217,8 +217,8 @@ def count_nodes(t):
 
 
 def tree_shape(t):
-    """(nodes, expanded, depth, visited nodes that were never expanded = finished games)"""
-    nodes = exp = term = 0
+    """(nodes, expanded, depth, visited nodes that were never expanded = finished games, of which drawn)"""
+    nodes = exp = term = draws = 0
     depth = 0
     stack = [(t, 0)]
     while stack:
@@ -231,7 +231,9 @@ def tree_shape(t):
                 stack.append((c, d + 1))
         elif n["sims"] > 0:
             term += 1
-    return nodes, exp, depth, term
+            if n["v0"] == 0:
+                draws += 1
+    return nodes, exp, depth, term, draws
 
 
 def diff_trees(impl, model, exact_values, ptol, vtol=Fraction(0)):
@@ -459,6 +461,7 @@ class Recorder:
         self._alive = []
         self.solver_calls = []
         self.capture_solver = True
+        self.seen_texts = None  # set() to collect the text of every position the evaluator is asked about
         self._patched = None
 
     # evaluator protocol
@@ -468,6 +471,8 @@ class Recorder:
         self.answers.append(a)
         self.by_pos[id(pos)] = a
         self._alive.append(pos)
+        if self.seen_texts is not None:
+            self.seen_texts.add(ser.pos_str(pos))
         return probs, value
 
     def ev_of(self, node):
@@ -571,6 +576,72 @@ def start_positions(rng, size, count, custom_prob=0.25):
             continue
         out.append(p)
     return out[:count]
+
+
+def ending_class(pos):
+    """how a finished game ended (the implementation's own adjudication; used only to spread the
+    generated endings over the kinds the rules know): road / board-full / reserves, won or drawn"""
+    w, why = pos.winner()
+    if why is None:
+        return None
+    if why.name == "ROAD":
+        return "road"
+    kind = "full" if all(pos.board) else "reserves"
+    return kind + ("-draw" if w is None else "-win")
+
+
+def endgame_positions(rng, size, per_class, back=(1, 1, 2, 3)):
+    """live positions 1..3 plies before the end of random games with small (custom) reserves,
+    balanced over the ways a game can end — road, full board, exhausted reserves; decided on flats
+    or level — so that finished games of every kind, drawn ones included, sit right below the
+    root and get visited.  Returns [(ending class of the game it came from, position)]."""
+    import tak
+
+    from . import gen
+
+    buckets = {}
+    want = ["road", "full-win", "full-draw", "reserves-win", "reserves-draw"]
+    tries = 0
+    while tries < 400 and any(len(buckets.get(k, [])) < per_class for k in want):
+        tries += 1
+        r = rng.random()
+        if r < 0.55:
+            cfg = tak.Config(size=size, pieces=rng.randrange(1, size + 3), capstones=rng.choice([0, 0, 1]))
+        elif r < 0.8:
+            cfg = tak.Config(size=size, pieces=rng.randrange(size + 1, 2 * size + 4), capstones=rng.choice([0, 1]))
+        else:
+            cfg = tak.Config(size=size)
+        game = gen.play_random_game(rng, cfg, rng.choice(gen.POLICIES), max_plies=10 * size * size)
+        cls = ending_class(game[-1])
+        if cls is None or len(game) < 3:
+            continue
+        b = buckets.setdefault(cls, [])
+        if len(b) >= per_class:
+            continue
+        k = min(rng.choice(back), len(game) - 1)
+        p = game[-1 - k]
+        if p.winner()[1] is None and legal_ids(p):
+            b.append((cls, p))
+    out = []
+    for k in want:
+        out.extend(buckets.get(k, []))
+    return out
+
+
+def replay_history(cfg, moves):
+    """the position after `moves` from the start of a game with configuration cfg, or None if some
+    move is refused / the game ends on the way"""
+    import tak
+
+    p = tak.Position.from_config(cfg)
+    for m in moves:
+        if p.winner()[1] is not None:
+            return None
+        try:
+            p = p.move(m)
+        except tak.IllegalMove:
+            return None
+    return p
 
 
 def make_case(rng, size, pos, evaluator, budget, noise, reuse):
